@@ -3,9 +3,11 @@ From Coq Require Import List NArith ZArith Bool Arith Lia.
 From SudachiVerif Require Import Model.Numeric Model.Rewrite.
 Import ListNotations.
 
-(* m stands for the consecutive group g: union of the ranges, concatenated dictionary-side surface *)
+(* m stands for the consecutive group g: union of the code-point ranges AND of the reported byte ranges (begin of the
+   first, end of the last), concatenated dictionary-side surface *)
 Definition mg (g : list node) (m : node) : Prop :=
-  g <> [] /\ nb m = nb (hd dnode g) /\ ne m = ne (last g dnode) /\ surf m = concat (map surf g).
+  g <> [] /\ (nb m, bb m) = (nb (hd dnode g), bb (hd dnode g)) /\
+  (ne m, be m) = (ne (last g dnode), be (last g dnode)) /\ surf m = concat (map surf g).
 
 (* an output node is an input node itself, or a merge carrying an allowed part of speech *)
 Definition mg' (allowed : N -> Prop) (g : list node) (m : node) : Prop :=
@@ -228,13 +230,14 @@ Proof.
 Qed.
 
 Lemma grouping_boundaries A p q m :
-  grouping A p q -> In m q -> (exists n, In n p /\ nb n = nb m) /\ (exists n, In n p /\ ne n = ne m).
+  grouping A p q -> In m q ->
+  (exists n, In n p /\ nb n = nb m /\ bb n = bb m) /\ (exists n, In n p /\ ne n = ne m /\ be n = be m).
 Proof.
   intros (gs & <- & HF) Hin. induction HF as [|g m' gs q Hg _ IH]; [contradiction|].
   cbn [concat]. destruct Hin as [->|Hin].
-  - apply mg'_mg in Hg. destruct Hg as (Hne & Hb & He & _). split.
-    + exists (hd dnode g). split; [|now rewrite Hb]. apply in_or_app. left. destruct g; [contradiction | now left].
-    + exists (last g dnode). split; [|now rewrite He]. apply in_or_app. left.
+  - apply mg'_mg in Hg. destruct Hg as (Hne & Hb & He & _). injection Hb as Hb Hbb. injection He as He Hee. split.
+    + exists (hd dnode g). split; [|split; congruence]. apply in_or_app. left. destruct g; [contradiction | now left].
+    + exists (last g dnode). split; [|split; congruence]. apply in_or_app. left.
       destruct (exists_last Hne) as (g' & x & ->). rewrite last_last. apply in_or_app. right. now left.
   - destruct (IH Hin) as [(n1 & H1 & E1) (n2 & H2 & E2)]. split; [exists n1 | exists n2]; (split; [apply in_or_app; now right | assumption]).
 Qed.
@@ -247,7 +250,7 @@ Qed.
 
 Corollary rewrite_boundaries_subset pls p q m :
   run_plugins pls p = Some (Ok q) -> In m q ->
-  (exists n, In n p /\ nb n = nb m) /\ (exists n, In n p /\ ne n = ne m).
+  (exists n, In n p /\ nb n = nb m /\ bb n = bb m) /\ (exists n, In n p /\ ne n = ne m /\ be n = be m).
 Proof. intros H. eapply grouping_boundaries, rewrite_is_grouping, H. Qed.
 
 Corollary rewrite_preserves_surface pls p q :
